@@ -1,6 +1,7 @@
 import Nstd.Common.Basic
 import Nstd.Sha.Model
 import Nstd.Sha.ModelU2
+import Nstd.Generated.Sha256Body
 import Nstd.Sha.Spec
 /-
   Line protocol of the Sha area (property C17).  State: one hasher object.
@@ -22,6 +23,8 @@ import Nstd.Sha.Spec
                       (model side: the generated `Transform` of the selected configuration)
   A digest line is `FAULT` when the model's ghost flag recorded an out-of-range array read.
   The observable is the digest; `update`/`rst` print `ok` only.
+  `update`/`updatenull`/`final` execute the bodies TRANSLATED from the sources (`Nstd.Generated.Sha256Body`), `hash`/`hmac`
+  the hand-written model functions (proved equal: `generated_bodies_are_the_model`), so both are tied to the real code.
 -/
 open Nstd.Common
 namespace Nstd.Sha
@@ -54,12 +57,12 @@ structure DState where
 def stepSha (st : Sha) (ws : List String) : Sha × String :=
   match ws with
   | ["rst"] => (reset st, "ok")
-  | ["final"] => let r := finalize st; (r.2, digestLine r.2.ok r.1)
+  | ["final"] => let r := Nstd.Generated.Sha256Body.finalize st; (r.2, digestLine r.2.ok r.1)
   | ["setcount", n] =>
     match n.toNat? with
     | some n => if n % 64 = 0 ∧ n < 2 ^ 64 then ({ st with count := UInt64.ofNat n }, "ok") else (st, "bad-op")
     | none => (st, "bad-op")
-  | ["updatenull"] => (update st [], "ok")
+  | ["updatenull"] => (Nstd.Generated.Sha256Body.update st [], "ok")
   | ["hashnull"] => (st, hashLine [])
   | ["hmacnullkey", m] =>
     match fromHex m with
@@ -71,7 +74,7 @@ def stepSha (st : Sha) (ws : List String) : Sha × String :=
     | none => (st, "bad-op")
   | ["update", d] =>
     match fromHex d with
-    | some b => (update st (toBytes b), "ok")
+    | some b => (Nstd.Generated.Sha256Body.update st (toBytes b), "ok")
     | none => (st, "bad-op")
   | ["hash", d] =>
     match fromHex d with
